@@ -265,9 +265,10 @@ def plan(mod, tier, seed, known_labels, workers):
 
 
 def write_replay(pid, label, case, msg, tier, seed):
-    os.makedirs(os.path.join(VERIF, 'replays'), exist_ok=True)
+    rdir = os.environ.get('VERIF_REPLAYS', 'replays')     # relative to /verif unless absolute
+    os.makedirs(os.path.join(VERIF, rdir), exist_ok=True)
     dg = hashlib.sha256((pid + '|' + label).encode()).hexdigest()[:10]
-    rel = os.path.join('replays', '%s-%s.json' % (pid, dg))
+    rel = os.path.join(rdir, '%s-%s.json' % (pid, dg))
     head = ''
     try:
         import subprocess
